@@ -201,17 +201,28 @@ theorem C01_law_opt_of_failing_body (k id : Nat) (c : Ctx) (e : Expr) (env : Lis
   simp [evalStep, h]
 
 /-- `&e` matches exactly when `e` does, `!e` exactly when it does not; both consume nothing, yield
-    nil, bind nothing, and leave the state store as it was before -/
+    nil, bind nothing, and leave the state store as it was before. (The operand of `!` is evaluated with
+    the negation parity flipped: the parity only labels the terminal attempts in the ghost log used by C12,
+    nothing in the semantics reads it.) -/
 theorem C01_law_and_pred (k id : Nat) (c : Ctx) (e : Expr) (env : List (String × Val)) (pt : Savepoint) (w : World)
     (v : Val) (pt' : Savepoint) (env' : List (String × Val)) (w' : World) (h : rec c e [] pt w = .ok v pt' env' w') :
-    evalStep E rec k c (.and id e) env pt w = .ok .nil pt env (rollback E w' w.state) ∧
-    evalStep E rec k c (.not id e) env pt w = .fail env (rollback E w' w.state) := by
+    evalStep E rec k c (.and id e) env pt w = .ok .nil pt env (rollback E w' w.state) := by
+  simp [evalStep, h]
+
+theorem C01_law_and_pred_fails (k id : Nat) (c : Ctx) (e : Expr) (env : List (String × Val)) (pt : Savepoint) (w : World)
+    (env' : List (String × Val)) (w' : World) (h : rec c e [] pt w = .fail env' w') :
+    evalStep E rec k c (.and id e) env pt w = .fail env (rollback E w' w.state) := by
   simp [evalStep, h]
 
 theorem C01_law_not_pred (k id : Nat) (c : Ctx) (e : Expr) (env : List (String × Val)) (pt : Savepoint) (w : World)
-    (env' : List (String × Val)) (w' : World) (h : rec c e [] pt w = .fail env' w') :
-    evalStep E rec k c (.not id e) env pt w = .ok .nil pt env (rollback E w' w.state) ∧
-    evalStep E rec k c (.and id e) env pt w = .fail env (rollback E w' w.state) := by
+    (env' : List (String × Val)) (w' : World) (h : rec { c with neg := !c.neg } e [] pt w = .fail env' w') :
+    evalStep E rec k c (.not id e) env pt w = .ok .nil pt env (rollback E w' w.state) := by
+  simp [evalStep, h]
+
+theorem C01_law_not_pred_fails (k id : Nat) (c : Ctx) (e : Expr) (env : List (String × Val)) (pt : Savepoint) (w : World)
+    (v : Val) (pt' : Savepoint) (env' : List (String × Val)) (w' : World)
+    (h : rec { c with neg := !c.neg } e [] pt w = .ok v pt' env' w') :
+    evalStep E rec k c (.not id e) env pt w = .fail env (rollback E w' w.state) := by
   simp [evalStep, h]
 
 /-- a labelled expression yields the labelled value and adds exactly one binding to the scope -/
@@ -223,7 +234,7 @@ theorem C01_law_labeled_binds (k id : Nat) (l : String) (hl : l ≠ "") (c : Ctx
 
 /-- the any matcher and classes never match at end of input -/
 theorem C01_law_any_fails_at_eof (k id : Nat) (c : Ctx) (env : List (String × Val)) (pt : Savepoint) (w : World)
-    (h : atEOF pt = true) : evalStep E rec k c (.any id) env pt w = .fail env w := by
+    (h : atEOF pt = true) : evalStep E rec k c (.any id) env pt w = .fail env (note c pt.pos "." false w) := by
   simp [evalStep, h]
 
 end Spec
